@@ -172,6 +172,25 @@ def handle (toks : List String) : Option String :=
     let v ← (if vname == "good" then some Variant.good else if vname == "pinned" then some Variant.pinned else none)
     let mr ← mr.toNat?; let mq ← mq.toNat?; let ds ← ds.toNat?; let ng ← ng.toNat?
     pure (runTrace v (cpu != "0") ng (init mr mq ds) (splitOn "|" rest))
+  | "victim" :: _n :: rest =>
+    -- findRunnerToUnload as a function of the loaded set: triples <model id> <uint64 keep-alive> <refCount>
+    let rec rows : List String → Option (List (Nat × Nat × Nat))
+      | [] => some []
+      | a :: b :: c :: tl => do
+        let a ← a.toNat?; let b ← b.toNat?; let c ← c.toNat?
+        let r ← rows tl
+        pure ((a, b, c) :: r)
+      | _ => none
+    do
+      let rs ← rows rest
+      let s : State := { nRunners := rs.length,
+                         runners := fun i => match rs[i]? with
+                           | some (m, d, c) => { model := m, session := d, refCount := c }
+                           | none => {},
+                         loaded := (List.range rs.length).filterMap fun i => (rs[i]?).map fun (m, _, _) => (m, i) }
+      pure (match findVictim s with
+        | some r => toString (s.runners r).model
+        | none => "none")
   | _ => none
 
 end Oracle.C01
